@@ -18,6 +18,7 @@ from pySDC.implementations.sweeper_classes.generic_implicit import generic_impli
 from pySDC.implementations.transfer_classes.TransferMesh_NoCoarse import mesh_to_mesh
 
 PID = 'C20'
+BOUNDS = {'quick': dict(dict_to_list='3 keys, lists 1..4 (6)', controllers='2..3 symbolic control orders', levels='1..4'), 'thorough': dict(controllers='2..4')}
 CREATED = []
 
 
